@@ -130,6 +130,8 @@ func VerifStepBudget(n int) {}
 // flags writes to frozen state), concurrently in two goroutines natively (the
 // replay is built with -race).
 func VerifShared(f func(i int)) {
+	verifSched.quiet = true // the step trace is not goroutine-safe (and not compared here)
+	defer func() { verifSched.quiet = false }()
 	done := make(chan struct{})
 	go func() { f(1); close(done) }()
 	f(0)
